@@ -20,7 +20,10 @@ LAST_ALIAS = []
 
 def real_function(qualname):
     parts = qualname.split('.')
-    mod = importlib.import_module('bitstring.' + parts[0]) if parts[0] != 'bitstring' else importlib.import_module('bitstring')
+    if parts[0] == 'client':
+        mod = importlib.import_module('contracts._client_code')
+    else:
+        mod = importlib.import_module('bitstring.' + parts[0]) if parts[0] != 'bitstring' else importlib.import_module('bitstring')
     v = mod
     for p in parts[1:]:
         v = v.__dict__[p] if isinstance(v, type) and p in v.__dict__ else getattr(v, p)
